@@ -11,7 +11,8 @@ From DaspGen Require Import RingGen.
 Import ListNotations.
 Open Scope Z_scope.
 
-Definition gbstep (b : bounded Z) (o : zop) : res (bounded Z * list Z) :=
+Definition gbstep (b : bounded Z) (o0 : zop) : res (bounded Z * list Z) :=
+  let o := bnorm b o0 in
   match to_op o with
   | None => UB
   | Some p =>
@@ -41,7 +42,7 @@ Definition gbrun_case (s l : Z) (d : list Z) (ops : list zop) : list (list Z) :=
 Fixpoint gfrun_z (f : fixed Z) (ops : list zop) : list (list Z) :=
   match ops with
   | [] => []
-  | o :: t => match to_fop o with
+  | o :: t => match to_fop (fnorm f o) with
               | None => [[-2]]
               | Some p => match gen_fstep f p with
                           | Ok (f', v) => enc v :: gfrun_z f' t
